@@ -105,7 +105,7 @@ def judge(m, vol, n, pos, L, fl, o1, o2, ref):
             else:
                 okl = np.zeros(shapeT, dtype=bool)
                 for lv in range(L + 1):
-                    okl |= (gl == lv) & ref["near"][lv].T
+                    okl |= (gl == lv) & ref["contains"][lv].T
                 if not okl.all():
                     j, i = np.argwhere(~okl)[0]
                     probs.append(f"grid_level: {int((~okl).sum())} pixels report a level that has no box "
